@@ -27,7 +27,7 @@ def cases(ctx):
     rng = ctx.rng
     for _ in range(ctx.per_shard(ctx.pick(300, 20000))):
         nlines = rng.choice([2, 3, 5, 10, 25, 60, 200] if not ctx.quick else [2, 3, 5, 10, 25, 60])
-        nid = rng.randint(1, 5)
+        nid = rng.choice([1, 2, 3, 4, 5, 9, 12, 20]) if nlines >= 10 else rng.randint(1, 5)
         yield {"kind": "doc", "dseed": rng.getrandbits(32), "nlines": nlines, "nid": nid,
                "salt": rng.choice(["saltForTest", "Q", "n", "x9", "$9$salty", "Bsalt", "7", "izz", "-a"])}
 
